@@ -559,10 +559,15 @@ func (b *byzActor) junk() {
 	if !to.up {
 		return
 	}
-	from := s.c.Intn(len(s.slots)) // any peer may relay garbage
-	if from == to.id {
-		from = (from + 1) % len(s.slots)
+	// garbage is relayed under a BYZANTINE peer's identity only: peer ids are authenticated (secret connection), and the
+	// per-peer bookkeeping of the code under test (one +2/3 claim per peer and vote set, two catch-up rounds per peer)
+	// would otherwise be used up in an honest peer's name, which no real adversary can do. (The draw keeps its old
+	// bound so that recorded tapes keep their meaning.)
+	x := s.c.Intn(len(s.slots))
+	if len(b.ids) == 0 {
+		return
 	}
+	from := b.ids[x%len(b.ids)]
 	rs := to.cs.GetRoundState()
 	kind := s.c.Weighted([]int{s.w.junkVotes * 3, s.w.junkParts * 3, s.w.claims * 2, 2, 2})
 	switch kind {
